@@ -110,7 +110,12 @@ class SymVC:
 
     def vector(self, name, n, pos=False, nonneg=False, sample=None, sort="Real", origin="input"):
         f = z3.Function(name, z3.IntSort(), z3.RealSort() if sort == "Real" else z3.IntSort())
-        t = Tensor((n,), lambda i: Sym(f(S.z(i))), origin=f"{origin}:{name}", dtype="real" if sort == "Real" else "int")
+        def elem(i):
+            # every index at which an input is read becomes an instantiation term for universal facts
+            self.c.add_index_term(i)
+            return Sym(f(S.z(i)))
+
+        t = Tensor((n,), elem, origin=f"{origin}:{name}", dtype="real" if sort == "Real" else "int")
         if pos:
             self.c.add_forall((n,), lambda i: f(S.z(i)) > 0, f"{name}>0")
         if nonneg:
@@ -120,7 +125,12 @@ class SymVC:
 
     def matrix(self, name, n, m, sample=None, origin="input"):
         f = z3.Function(name, z3.IntSort(), z3.IntSort(), z3.RealSort())
-        t = Tensor((n, m), lambda i, j: Sym(f(S.z(i), S.z(j))), origin=f"{origin}:{name}")
+        def elem(i, j):
+            self.c.add_index_term(i)
+            self.c.add_index_term(j)
+            return Sym(f(S.z(i), S.z(j)))
+
+        t = Tensor((n, m), elem, origin=f"{origin}:{name}")
         self.getvals.append({"name": name, "kind": "mat", "rows": _lenref(n), "cols": _lenref(m)})
         return t
 
@@ -170,6 +180,14 @@ class SymVC:
         self.I.set_attr(obj, name, v)
 
     may_raise = False
+
+    def ghost(self, name, fn):
+        """a user-supplied callable (forward model, posterior ...): arbitrary, represented by `fn`"""
+        return GhostFn(name, fn)
+
+    def deriv(self, value, dleaf):
+        from .diff import derivative
+        return derivative(value, dleaf)
 
     def _guard(self, thunk):
         try:
@@ -262,6 +280,9 @@ class SymVC:
     def sqrt(self, x):
         return N.np_sqrt(x)
 
+    def log1pexp(self, x):
+        return N.np_log(1 + N.np_exp(x))
+
     def abs(self, x):
         return N.np_abs(x)
 
@@ -306,6 +327,9 @@ class SymVC:
 
     def note(self, s):
         self.c.notes.append(s)
+
+    def tol(self, rtol=None, atol=None):
+        pass
 
     def writes_to_inputs(self):
         """in-place writes whose target allocation came from the caller (frame clause)"""
@@ -573,6 +597,14 @@ class NatVC:
     def attr(self, obj, name):
         return getattr(obj.native if isinstance(obj, Handle) else obj, name)
 
+    def ghost(self, name, fn):
+        def ihandler(*a, **k):
+            return _to_interp(fn(*_from_interp(a), **_from_interp(k)))
+        return NatGhost(fn, GhostFn(name, ihandler))
+
+    def deriv(self, value, dleaf):
+        return None
+
     def setattr(self, obj, name, v):
         setattr(obj.native, name, v)
         if obj.interp is not None:
@@ -642,6 +674,9 @@ class NatVC:
 
     def sqrt(self, x):
         return np.sqrt(x)
+
+    def log1pexp(self, x):
+        return np.logaddexp(0.0, x)
 
     def abs(self, x):
         return np.abs(x)
@@ -768,6 +803,23 @@ def _to_interp(x):
         return [_to_interp(v) for v in x]
     if isinstance(x, NatGhost):
         return x.interp
+    return x
+
+
+def _from_interp(x):
+    if isinstance(x, Tensor):
+        shp = tuple(int(unwrap(d)) for d in x.shape)
+        a = np.zeros(shp)
+        import itertools
+        for idx in itertools.product(*[range(d) for d in shp]):
+            a[idx] = float(x.at(*idx))
+        return a
+    if isinstance(x, dict):
+        return {k: _from_interp(v) for k, v in x.items()}
+    if isinstance(x, tuple):
+        return tuple(_from_interp(v) for v in x)
+    if isinstance(x, list):
+        return [_from_interp(v) for v in x]
     return x
 
 
